@@ -249,9 +249,10 @@ def find_loops(body):
         k = m.end()
         if kind == 'for':
             # must be followed by pattern then ` in `
-            mm = re.compile(r'\s+[^;{}]*?\sin\s').match(body, k)
+            mm = re.compile(r'\s+[^;]*?\sin\s').match(body, k)
             if not mm:
                 continue
+            k = mm.end()
         # find the opening brace at paren depth 0
         d = 0
         j = k
@@ -282,18 +283,20 @@ def annotate_loops(body, loops, unit):
         raise LostAnchor('loop skeleton of %s changed: found %s, contract written for %s' %
                          (unit, [k for k, _, _ in found], [l['kind'] for l in loops]))
     # apply from last to first so indices stay valid
-    for (kind, st, br), l in reversed(list(zip(found, loops))):
+    idx = list(range(1, len(loops) + 1))
+    for (kind, st, br), l, k in reversed(list(zip(found, loops, idx))):
         head = body[st:br]
         if kind == 'for':
             m = re.match(r'for\s+(.*?)\s+in\s+(.*)$', head, re.S)
             pat, expr = m.group(1), m.group(2).rstrip()
             if 'rebind' in l:
-                # R20: for PAT in <expr>  ->  for __e in it: <expr> { let PAT = <rebind>;
-                head = 'for %s in %s: %s\n' % (l.get('var', '__e'), l['it'], l.get('expr', expr))
-                body = body[:st] + head + (l.get('inv') or '') + '\n{ let %s = %s;' % (pat, l['rebind']) + body[br + 1:]
+                # R20: for PAT in EXPR {..}  ->  let __hK = EXPR; for __e in it: &__hK inv { let PAT = <rebind>; ..}
+                h = '__h%d' % k
+                head = 'let %s = %s;\n for __e in %s: &%s\n' % (h, expr, l['it'], h)
+                body = body[:st] + head + (l.get('inv') or '') + '\n{ let %s = %s;' % (pat, l['rebind']) + l.get('body_proof', '') + body[br + 1:]
                 continue
-            head = 'for %s in %s: %s\n' % (pat, l['it'], l.get('expr', expr))
-        body = body[:st] + head + ' ' + (l.get('inv') or '') + '\n' + body[br:]
+            head = 'for %s in %s: %s\n' % (pat, l['it'], expr)
+        body = body[:st] + head + ' ' + (l.get('inv') or '') + '\n{' + l.get('body_proof', '') + body[br + 1:]
     return body
 
 
@@ -373,8 +376,11 @@ class Assembly:
         self.parts = []   # (kind, name, text, meta)
         self.rules = Rules()
         self.units = []
+        self.stubs = []
 
     def raw(self, text, name='lib', kind='lib'):
+        if kind == 'lemma':
+            kind = 'lib'
         self.parts.append((kind, name, text, None))
 
     def file(self, relpath, kind='lib'):
@@ -385,6 +391,13 @@ class Assembly:
         text, f = u.render(self.rules)
         self.units.append(u)
         self.parts.append(('unit', u.name, text, f))
+
+    def stub(self, u, proved_in=''):
+        """callee contract assumed in this file (its body is verified in another property's file, or not at all)"""
+        hdr = u.header.rstrip()
+        text = u.pre + u.wrap[0] + '\n#[verifier::external_body]\n' + hdr + '\n{ unimplemented!() }\n' + u.wrap[1] + '\n'
+        self.stubs.append(dict(unit=u.name, proved_in=proved_in))
+        self.parts.append(('stub', u.name, text, None))
 
     def extracted(self, text, name):
         """types / macro expansions taken from the repo by the property's own extraction code"""
